@@ -11,13 +11,20 @@
 (*               grammar over token sequences.  TLC decides                  *)
 (*               Parse(Pr(e)) = e for every tree (RoundTrip).                *)
 (*   Impl-shaped: PI(e, prec), a transcription of CodeWriter.ExpressionWriter*)
-(*               (precedence stack, emit_sequence, the dropped comparison    *)
-(*               cascade, the un-parenthesised conditional expression) on    *)
-(*               the tree as EmbedSignature sees it (after ConstantFolding:  *)
-(*               "-1" is a literal, "not (a in b)" is "a not in b").         *)
+(*               as repaired for KF-C25-1..6 (precedence stack with          *)
+(*               visit_operand / visit_primary, emit_sequence with the comma *)
+(*               of a one-element tuple, the comparison cascade, the         *)
+(*               conditional expression under operator_enter(0), negative    *)
+(*               literals under the precedence of unary minus) on the tree   *)
+(*               as EmbedSignature sees it (after ConstantFolding: "-1" is a *)
+(*               literal, "not (a in b)" is "a not in b"; after              *)
+(*               FlattenInListTransform: "x in (a, b)" is not printable).    *)
 (*               Hazard(e): the text PI prints does not parse back to (the   *)
 (*               normal form of) e.  TLC decides that every hazard is        *)
-(*               explained by the root-cause catalogue Tags(e) (Catalogue).  *)
+(*               explained by the root-cause catalogue Causes (Catalogue):   *)
+(*               only "inlist" is left; the other six classes of Tags(e)     *)
+(*               (the constructs the writer got wrong before the repairs)    *)
+(*               are printed faithfully, they remain as replay strata.       *)
 (* mode "sig":  parameter lists (kind, default) built parameter by parameter *)
 (*   and nesting paths (function / class / cdef class) with QualName(path).  *)
 (* Every case is published ("@@" + JSON) for replay on compiled modules.     *)
@@ -42,6 +49,7 @@ LvOpqs   == {"lambda", "walrus", "fstring"}
 LvLits   == {"i0", "i1", "ibig", "ihex", "ibin", "ioct", "iund", "f15", "fexp", "fEneg", "fdot5", "f5dot", "finf", "fund",
              "j2", "j15"}
 DecInts  == {"i0", "i1", "ibig", "iund"}       \* decimal integer literals: "1.real" is not a token sequence ("1." is a float)
+IntLits  == {"i0", "i1", "ibig", "ihex", "ibin", "ioct", "iund"}      \* literals that are an ExprNodes.IntNode
 LvAtomsAll == {"s_a", "s_esc", "s_quotes", "s_uni", "s_raw", "s_cat", "s_triple", "s_empty", "s_nl", "b_a", "b_esc", "b_quotes",
                "None", "True", "False", "Ellipsis", "e_tuple", "e_list", "e_dict", "e_setcall"}
 AllUn    == {"-", "+", "~", "not"}
@@ -302,7 +310,10 @@ FoldedNeg(e) == e.k = "un" /\ e.v[1] = "-" /\ e.c[1].k = "num"       \* Constant
 NotMember(e) == e.k = "un" /\ e.v[1] = "not" /\ e.c[1].k = "cmp" /\ Len(e.c[1].v) = 1
                 /\ e.c[1].v[1] \in {"in", "not in", "is", "is not"}       \* ConstantFolding._handle_NotNode
 
-RECURSIVE PI(_, _), PIItems(_, _, _)
+\* The writer keeps a stack of precedences; pr is its top when the node is visited.  operator_enter(p) parenthesises when
+\* pr > p and pushes p; visit_operand(x, q) pushes q around the visit of x; self.visit(x) alone leaves the stack as it is
+\* (items of displays, subscripts, slice bounds, call arguments inherit pr).
+RECURSIVE PI(_, _), PIItems(_, _, _), PICmpRest(_, _)
 PIItem(x, pr) == CASE x.k = "kv" -> PI(x.c[1], pr) \o <<T(":")>> \o PI(x.c[2], pr)
                    [] x.k = "star" -> <<T("*")>> \o PI(x.c[1], pr)
                    [] x.k = "dstar" -> <<T("**")>> \o PI(x.c[1], pr)
@@ -312,32 +323,47 @@ PIItem(x, pr) == CASE x.k = "kv" -> PI(x.c[1], pr) \o <<T(":")>> \o PI(x.c[2], p
 \* comma_separated_list: no trailing comma, whatever the length
 PIItems(xs, i, pr) == IF i > Len(xs) THEN <<>>
                       ELSE PIItem(xs[i], pr) \o (IF i < Len(xs) THEN <<T(",")>> ELSE <<>>) \o PIItems(xs, i + 1, pr)
+\* emit_sequence: comma_separated_list + "," after the single item of a TupleNode
+PISeq1(xs, pr) == PIItems(xs, 1, pr) \o (IF Len(xs) = 1 THEN <<T(",")>> ELSE <<>>)
+\* visit_PrimaryCmpNode follows node.cascade: every operator, every operand with prec + 1 = 5
+PICmpRest(e, i) == IF i > Len(e.v) THEN <<>> ELSE <<T(e.v[i])>> \o PI(e.c[i + 1], 5) \o PICmpRest(e, i + 1)
+IntLit(x) == x.k = "num" /\ x.v[1] \in IntLits
+IntNodeObj(x) == IntLit(x) \/ (FoldedNeg(x) /\ IntLit(x.c[1]))          \* isinstance(node.obj, IntNode), value "1" or "-1"
 PI(e, pr) ==
   CASE e.k \in {"name", "num", "atom"} -> <<A(e)>>
     [] e.k = "opq" -> <<A(EllipsisLeaf)>>                               \* visit_Node with allow_unknown_nodes
-    [] e.k = "un" -> IF FoldedNeg(e) THEN <<T("-"), A(e.c[1])>>         \* visit_IntNode: put(node.value), value = "-1"
+    \* emit_number: a literal whose text starts with "-" is written under operator_enter(unop_precedence["-"])
+    [] e.k = "un" -> IF FoldedNeg(e) THEN Enter(pr, 11, <<T("-"), A(e.c[1])>>)
                      ELSE IF NotMember(e) THEN PI(N("cmp", <<NegOp(e.c[1].v[1])>>, e.c[1].c), pr)
                      ELSE Enter(pr, CyPrec(e), <<T(e.v[1])>> \o PI(e.c[1], CyPrec(e)))
-    [] e.k \in {"bin", "bool"} -> Enter(pr, CyPrec(e), PI(e.c[1], CyPrec(e)) \o <<T(e.v[1])>> \o PI(e.c[2], CyPrec(e)))
-    \* visit_PrimaryCmpNode = visit_BinopNode: operand1 operator operand2; node.cascade is never visited
+    \* visit_BinopNode (= visit_BoolBinopNode): the operand on the non-associative side is visited with prec + 1
+    [] e.k \in {"bin", "bool"} -> LET p == CyPrec(e)
+                                      r == e.v[1] = "**"
+                                  IN Enter(pr, p, PI(e.c[1], IF r THEN p + 1 ELSE p) \o <<T(e.v[1])>> \o PI(e.c[2], IF r THEN p ELSE p + 1))
     [] e.k = "cmp" -> IF IsMember(e) THEN <<A(EllipsisLeaf)>>                \* visit_Node with allow_unknown_nodes
-                      ELSE Enter(pr, 4, PI(e.c[1], 4) \o <<T(e.v[1])>> \o PI(e.c[2], 4))
-    \* visit_CondExprNode: no operator_enter at all
-    [] e.k = "cond" -> PI(e.c[1], pr) \o <<T("if")>> \o PI(e.c[2], pr) \o <<T("else")>> \o PI(e.c[3], pr)
-    [] e.k = "tuple" -> Paren(PIItems(e.c, 1, pr))
+                      ELSE Enter(pr, 4, PI(e.c[1], 5) \o PICmpRest(e, 1))
+    \* visit_CondExprNode: operator_enter(0); true_val and condition with the precedence of `or`, false_val under the 0
+    [] e.k = "cond" -> Enter(pr, 0, PI(e.c[1], 1) \o <<T("if")>> \o PI(e.c[2], 1) \o <<T("else")>> \o PI(e.c[3], 0))
+    [] e.k = "tuple" -> Paren(PISeq1(e.c, pr))
     [] e.k = "list" -> <<T("[")>> \o PIItems(e.c, 1, pr) \o <<T("]")>>
     [] e.k \in {"set", "dict"} -> <<T("{")>> \o PIItems(e.c, 1, pr) \o <<T("}")>>
-    [] e.k = "attr" -> PI(e.c[1], pr) \o <<T(".real")>>
-    [] e.k = "sub" -> PI(e.c[1], pr) \o <<T("[")>>
+    \* visit_AttributeNode: "(" visit_operand(obj, 0) ")" for an IntNode, visit_primary = visit_operand(obj, 12 + 1) otherwise
+    [] e.k = "attr" -> (IF IntNodeObj(e.c[1]) THEN Paren(PI(e.c[1], 0)) ELSE PI(e.c[1], 13)) \o <<T(".real")>>
+    \* visit_IndexNode / visit_SliceIndexNode / visit_SliceNode: visit_primary(base); the precedence is popped before "["
+    [] e.k = "sub" -> PI(e.c[1], 13) \o <<T("[")>>
                       \o (IF e.c[2].k = "slice" THEN SliceToks(e.c[2], LAMBDA x : PIItem(x, pr))
-                          ELSE IF e.c[2].k = "tuple" THEN (IF e.c[2].c = <<>> THEN <<T("("), T(")")>> ELSE PIItems(e.c[2].c, 1, pr))
+                          ELSE IF e.c[2].k = "tuple" THEN (IF e.c[2].c = <<>> THEN <<T("("), T(")")>> ELSE PISeq1(e.c[2].c, pr))
                           ELSE PI(e.c[2], pr))
                       \o <<T("]")>>
-    [] e.k = "call" -> PI(e.c[1], pr) \o <<T("(")>> \o PIItems(Tail(e.c), 1, pr) \o <<T(")")>>
+    \* visit_SimpleCallNode / visit_GeneralCallNode: visit_primary(function); arguments inherit pr
+    [] e.k = "call" -> PI(e.c[1], 13) \o <<T("(")>> \o PIItems(Tail(e.c), 1, pr) \o <<T(")")>>
 ImplText(e) == PI(e, 0)
 
-\* "1.real" is one float token followed by a name for the tokenizer: the impl text of a literal base is not a token sequence
+\* "1.real" is one float token followed by a name for the tokenizer: such a text is not a token sequence.  LexNode: the tree
+\* shape that needs the parentheses; LexText: a text that lacks them (the repaired visit_AttributeNode never emits one)
 LexNode(g) == g.k = "attr" /\ g.c[1].k = "num" /\ g.c[1].v[1] \in DecInts
+LexText(ts) == \E i \in 1..Len(ts) - 1 : /\ ts[i].t = "a" /\ ts[i].n.k = "num" /\ ts[i].n.v[1] \in DecInts
+                                         /\ Is(ts, i + 1, ".real")
 
 ---------------------------------------------------------------------------
 (* what ConstantFolding may rewrite before the writer runs (beyond the two forms modelled above):  *)
@@ -355,7 +381,13 @@ FoldNode(g) == CASE g.k = "un" -> Closed(g.c[1]) /\ ~FoldedNeg(g)
                  [] OTHER -> FALSE
 
 ---------------------------------------------------------------------------
-(* root-cause catalogue of the implementation-shaped printer *)
+(* Classes of constructs where parentheses, a comma or a whole sub-tree are at stake (Tags), and the root-cause      *)
+(* catalogue of the implementation-shaped printer (Causes).  Before the repairs KF-C25-1..6 every class was a root   *)
+(* cause (the writer dropped the comma of a one-element tuple, the tail of a comparison chain, the parentheses of     *)
+(* same-precedence operands, of conditional expressions, of primary bases and of negative bases of a power);         *)
+(* the repaired writer prints all of them faithfully -- TLC decides it (Catalogue: a hazard implies a cause) -- and    *)
+(* only "inlist" (KF-C25-10, FlattenInListTransform runs before EmbedSignature) is left.  The classes stay: they     *)
+(* are the strata of the replay sample and the vacuity guard demands a published tree of every class alone.           *)
 IsOperator(g) == g.k \in OperatorKinds
 CmpLike(x) == x.k = "cmp" \/ NotMember(x)      \* `not (a in b)` is the comparison `a not in b` when the writer sees it
 SamePrecTight(g) ==      \* an operand with the operator's own precedence on the side where Python needs parentheses
@@ -384,13 +416,13 @@ InList(g) == IsMember(g) \/ (NotMember(g) /\ IsMember(g.c[1])) \/ MemberF(g) \/ 
 \* does some node of e satisfy the predicate named t ?
 Pred(g, t) == CASE t = "tuple1" -> Tuple1(g) [] t = "chain" -> Chain(g) [] t = "assoc" -> SamePrecTight(g)
                 [] t = "cond" -> CondOperand(g) [] t = "primary" -> PrimaryBase(g) [] t = "negpow" -> NegPow(g) [] t = "inlist" -> InList(g)
-                [] t = "fold" -> FoldNode(g) [] t = "lex" -> LexNode(g)
+                [] t = "fold" -> FoldNode(g)
 RECURSIVE AnyT(_, _)
 AnyT(e, t) == Pred(e, t) \/ \E i \in 1..Len(e.c) : AnyT(e.c[i], t)
 Tags(e) == {t \in {"tuple1", "chain", "assoc", "cond", "primary", "negpow", "inlist"} : AnyT(e, t)}
+Causes == {"inlist"}
 Foldish(e) == AnyT(e, "fold")
-LexBroken(e) == AnyT(e, "lex")
-Hazard(e) == LexBroken(e) \/ Norm(Parse(ImplText(e))) # Norm(e)
+Hazard(e) == LexText(ImplText(e)) \/ Norm(Parse(ImplText(e))) # Norm(e)
 
 ---------------------------------------------------------------------------
 (* parameter lists and nesting paths *)
@@ -534,19 +566,19 @@ TypeOK == /\ mode \in {"expr", "lit", "sig"} /\ H <= 3 /\ nops <= MaxO /\ ntok <
 (*  RoundTrip     the reference printer never drops needed parentheses: its text parses back to e    *)
 (*  ImplParses    the parser is total on whatever the implementation-shaped printer emits            *)
 (*  Catalogue     every tree the implementation-shaped printer gets wrong contains a catalogued      *)
-(*                root cause                                                                         *)
-(*  AlwaysStrikes these root causes always strike (no other construct masks them)                    *)
+(*                root cause (Causes); in particular the six repaired classes print faithfully       *)
+(*  AlwaysStrikes the root causes always strike (no other construct masks them)                      *)
 Verdict(e) == LET ref  == RefText(e)
                   im   == ImplText(e)
                   back == Parse(im)
                   fold == Foldish(e)
-                  hz   == LexBroken(e) \/ Norm(back) # Norm(e)
+                  hz   == LexText(im) \/ Norm(back) # Norm(e)
                   tags == Tags(e)
               IN [ref |-> ref, im |-> im, fold |-> fold, hz |-> hz, tags |-> tags,
                   roundtrip |-> Parse(ref) = e,
                   implparses |-> back.k # "nil",
-                  catalogue |-> (~fold /\ hz) => tags # {},
-                  strikes |-> (~fold /\ tags \cap {"tuple1", "chain", "assoc", "cond", "negpow", "inlist"} # {}) => hz]
+                  catalogue |-> (~fold /\ hz) => tags \cap Causes # {},
+                  strikes |-> (~fold /\ tags \cap Causes # {}) => hz]
 SetToSortedSeq(S) == LET order == <<"assoc", "chain", "cond", "inlist", "negpow", "primary", "tuple1">> IN
                      SelectSeq(order, LAMBDA t : t \in S)
 ExprOK == ExprCase =>
@@ -558,8 +590,8 @@ ExprOK == ExprCase =>
 \* the same statements one by one (for diagnosis)
 RoundTrip == ExprCase => Parse(RefText(E)) = E
 ImplParses == ExprCase => Parse(ImplText(E)).k # "nil"
-Catalogue == (ExprCase /\ ~Foldish(E) /\ Hazard(E)) => Tags(E) # {}
-AlwaysStrikes == (ExprCase /\ ~Foldish(E) /\ Tags(E) \cap {"tuple1", "chain", "assoc", "cond", "negpow", "inlist"} # {}) => Hazard(E)
+Catalogue == (ExprCase /\ ~Foldish(E) /\ Hazard(E)) => Tags(E) \cap Causes # {}
+AlwaysStrikes == (ExprCase /\ ~Foldish(E) /\ Tags(E) \cap Causes # {}) => Hazard(E)
 
 (* qualified names: one "<locals>" per enclosing function, the function's own name last *)
 QualOK == IsSig => LET q == QualName(path) IN
